@@ -90,62 +90,65 @@ Record st := {
   obuf : list (call * Z);
   sb_n : Z;
   sres : list Z;
+  inq : list (Z * Z * Z * Z);
   outs : list out
 }.
 Definition set_now (v : Z) (s : st) : st :=
-  {| now := v; cnt0 := cnt0 s; tb := tb s; upc := upc s; upl := upl s; gout := gout s; slots := slots s; delay := delay s; tcd := tcd s; tsv := tsv s; tup := tup s; seqc := seqc s; li := li s; ram_relay := ram_relay s; ram_t2 := ram_t2 s; fl_relay := fl_relay s; fl_t2 := fl_t2 s; chfl := chfl s; time2 := time2 s; conn := conn s; reg := reg s; queue := queue s; regreq := regreq s; obuf := obuf s; sb_n := sb_n s; sres := sres s; outs := outs s |}.
+  {| now := v; cnt0 := cnt0 s; tb := tb s; upc := upc s; upl := upl s; gout := gout s; slots := slots s; delay := delay s; tcd := tcd s; tsv := tsv s; tup := tup s; seqc := seqc s; li := li s; ram_relay := ram_relay s; ram_t2 := ram_t2 s; fl_relay := fl_relay s; fl_t2 := fl_t2 s; chfl := chfl s; time2 := time2 s; conn := conn s; reg := reg s; queue := queue s; regreq := regreq s; obuf := obuf s; sb_n := sb_n s; sres := sres s; inq := inq s; outs := outs s |}.
 Definition set_cnt0 (v : Z) (s : st) : st :=
-  {| now := now s; cnt0 := v; tb := tb s; upc := upc s; upl := upl s; gout := gout s; slots := slots s; delay := delay s; tcd := tcd s; tsv := tsv s; tup := tup s; seqc := seqc s; li := li s; ram_relay := ram_relay s; ram_t2 := ram_t2 s; fl_relay := fl_relay s; fl_t2 := fl_t2 s; chfl := chfl s; time2 := time2 s; conn := conn s; reg := reg s; queue := queue s; regreq := regreq s; obuf := obuf s; sb_n := sb_n s; sres := sres s; outs := outs s |}.
+  {| now := now s; cnt0 := v; tb := tb s; upc := upc s; upl := upl s; gout := gout s; slots := slots s; delay := delay s; tcd := tcd s; tsv := tsv s; tup := tup s; seqc := seqc s; li := li s; ram_relay := ram_relay s; ram_t2 := ram_t2 s; fl_relay := fl_relay s; fl_t2 := fl_t2 s; chfl := chfl s; time2 := time2 s; conn := conn s; reg := reg s; queue := queue s; regreq := regreq s; obuf := obuf s; sb_n := sb_n s; sres := sres s; inq := inq s; outs := outs s |}.
 Definition set_tb (v : Z) (s : st) : st :=
-  {| now := now s; cnt0 := cnt0 s; tb := v; upc := upc s; upl := upl s; gout := gout s; slots := slots s; delay := delay s; tcd := tcd s; tsv := tsv s; tup := tup s; seqc := seqc s; li := li s; ram_relay := ram_relay s; ram_t2 := ram_t2 s; fl_relay := fl_relay s; fl_t2 := fl_t2 s; chfl := chfl s; time2 := time2 s; conn := conn s; reg := reg s; queue := queue s; regreq := regreq s; obuf := obuf s; sb_n := sb_n s; sres := sres s; outs := outs s |}.
+  {| now := now s; cnt0 := cnt0 s; tb := v; upc := upc s; upl := upl s; gout := gout s; slots := slots s; delay := delay s; tcd := tcd s; tsv := tsv s; tup := tup s; seqc := seqc s; li := li s; ram_relay := ram_relay s; ram_t2 := ram_t2 s; fl_relay := fl_relay s; fl_t2 := fl_t2 s; chfl := chfl s; time2 := time2 s; conn := conn s; reg := reg s; queue := queue s; regreq := regreq s; obuf := obuf s; sb_n := sb_n s; sres := sres s; inq := inq s; outs := outs s |}.
 Definition set_upc (v : Z) (s : st) : st :=
-  {| now := now s; cnt0 := cnt0 s; tb := tb s; upc := v; upl := upl s; gout := gout s; slots := slots s; delay := delay s; tcd := tcd s; tsv := tsv s; tup := tup s; seqc := seqc s; li := li s; ram_relay := ram_relay s; ram_t2 := ram_t2 s; fl_relay := fl_relay s; fl_t2 := fl_t2 s; chfl := chfl s; time2 := time2 s; conn := conn s; reg := reg s; queue := queue s; regreq := regreq s; obuf := obuf s; sb_n := sb_n s; sres := sres s; outs := outs s |}.
+  {| now := now s; cnt0 := cnt0 s; tb := tb s; upc := v; upl := upl s; gout := gout s; slots := slots s; delay := delay s; tcd := tcd s; tsv := tsv s; tup := tup s; seqc := seqc s; li := li s; ram_relay := ram_relay s; ram_t2 := ram_t2 s; fl_relay := fl_relay s; fl_t2 := fl_t2 s; chfl := chfl s; time2 := time2 s; conn := conn s; reg := reg s; queue := queue s; regreq := regreq s; obuf := obuf s; sb_n := sb_n s; sres := sres s; inq := inq s; outs := outs s |}.
 Definition set_upl (v : Z) (s : st) : st :=
-  {| now := now s; cnt0 := cnt0 s; tb := tb s; upc := upc s; upl := v; gout := gout s; slots := slots s; delay := delay s; tcd := tcd s; tsv := tsv s; tup := tup s; seqc := seqc s; li := li s; ram_relay := ram_relay s; ram_t2 := ram_t2 s; fl_relay := fl_relay s; fl_t2 := fl_t2 s; chfl := chfl s; time2 := time2 s; conn := conn s; reg := reg s; queue := queue s; regreq := regreq s; obuf := obuf s; sb_n := sb_n s; sres := sres s; outs := outs s |}.
+  {| now := now s; cnt0 := cnt0 s; tb := tb s; upc := upc s; upl := v; gout := gout s; slots := slots s; delay := delay s; tcd := tcd s; tsv := tsv s; tup := tup s; seqc := seqc s; li := li s; ram_relay := ram_relay s; ram_t2 := ram_t2 s; fl_relay := fl_relay s; fl_t2 := fl_t2 s; chfl := chfl s; time2 := time2 s; conn := conn s; reg := reg s; queue := queue s; regreq := regreq s; obuf := obuf s; sb_n := sb_n s; sres := sres s; inq := inq s; outs := outs s |}.
 Definition set_gout (v : Z) (s : st) : st :=
-  {| now := now s; cnt0 := cnt0 s; tb := tb s; upc := upc s; upl := upl s; gout := v; slots := slots s; delay := delay s; tcd := tcd s; tsv := tsv s; tup := tup s; seqc := seqc s; li := li s; ram_relay := ram_relay s; ram_t2 := ram_t2 s; fl_relay := fl_relay s; fl_t2 := fl_t2 s; chfl := chfl s; time2 := time2 s; conn := conn s; reg := reg s; queue := queue s; regreq := regreq s; obuf := obuf s; sb_n := sb_n s; sres := sres s; outs := outs s |}.
+  {| now := now s; cnt0 := cnt0 s; tb := tb s; upc := upc s; upl := upl s; gout := v; slots := slots s; delay := delay s; tcd := tcd s; tsv := tsv s; tup := tup s; seqc := seqc s; li := li s; ram_relay := ram_relay s; ram_t2 := ram_t2 s; fl_relay := fl_relay s; fl_t2 := fl_t2 s; chfl := chfl s; time2 := time2 s; conn := conn s; reg := reg s; queue := queue s; regreq := regreq s; obuf := obuf s; sb_n := sb_n s; sres := sres s; inq := inq s; outs := outs s |}.
 Definition set_slots (v : list slot) (s : st) : st :=
-  {| now := now s; cnt0 := cnt0 s; tb := tb s; upc := upc s; upl := upl s; gout := gout s; slots := v; delay := delay s; tcd := tcd s; tsv := tsv s; tup := tup s; seqc := seqc s; li := li s; ram_relay := ram_relay s; ram_t2 := ram_t2 s; fl_relay := fl_relay s; fl_t2 := fl_t2 s; chfl := chfl s; time2 := time2 s; conn := conn s; reg := reg s; queue := queue s; regreq := regreq s; obuf := obuf s; sb_n := sb_n s; sres := sres s; outs := outs s |}.
+  {| now := now s; cnt0 := cnt0 s; tb := tb s; upc := upc s; upl := upl s; gout := gout s; slots := v; delay := delay s; tcd := tcd s; tsv := tsv s; tup := tup s; seqc := seqc s; li := li s; ram_relay := ram_relay s; ram_t2 := ram_t2 s; fl_relay := fl_relay s; fl_t2 := fl_t2 s; chfl := chfl s; time2 := time2 s; conn := conn s; reg := reg s; queue := queue s; regreq := regreq s; obuf := obuf s; sb_n := sb_n s; sres := sres s; inq := inq s; outs := outs s |}.
 Definition set_delay (v : Z) (s : st) : st :=
-  {| now := now s; cnt0 := cnt0 s; tb := tb s; upc := upc s; upl := upl s; gout := gout s; slots := slots s; delay := v; tcd := tcd s; tsv := tsv s; tup := tup s; seqc := seqc s; li := li s; ram_relay := ram_relay s; ram_t2 := ram_t2 s; fl_relay := fl_relay s; fl_t2 := fl_t2 s; chfl := chfl s; time2 := time2 s; conn := conn s; reg := reg s; queue := queue s; regreq := regreq s; obuf := obuf s; sb_n := sb_n s; sres := sres s; outs := outs s |}.
+  {| now := now s; cnt0 := cnt0 s; tb := tb s; upc := upc s; upl := upl s; gout := gout s; slots := slots s; delay := v; tcd := tcd s; tsv := tsv s; tup := tup s; seqc := seqc s; li := li s; ram_relay := ram_relay s; ram_t2 := ram_t2 s; fl_relay := fl_relay s; fl_t2 := fl_t2 s; chfl := chfl s; time2 := time2 s; conn := conn s; reg := reg s; queue := queue s; regreq := regreq s; obuf := obuf s; sb_n := sb_n s; sres := sres s; inq := inq s; outs := outs s |}.
 Definition set_tcd (v : tmr) (s : st) : st :=
-  {| now := now s; cnt0 := cnt0 s; tb := tb s; upc := upc s; upl := upl s; gout := gout s; slots := slots s; delay := delay s; tcd := v; tsv := tsv s; tup := tup s; seqc := seqc s; li := li s; ram_relay := ram_relay s; ram_t2 := ram_t2 s; fl_relay := fl_relay s; fl_t2 := fl_t2 s; chfl := chfl s; time2 := time2 s; conn := conn s; reg := reg s; queue := queue s; regreq := regreq s; obuf := obuf s; sb_n := sb_n s; sres := sres s; outs := outs s |}.
+  {| now := now s; cnt0 := cnt0 s; tb := tb s; upc := upc s; upl := upl s; gout := gout s; slots := slots s; delay := delay s; tcd := v; tsv := tsv s; tup := tup s; seqc := seqc s; li := li s; ram_relay := ram_relay s; ram_t2 := ram_t2 s; fl_relay := fl_relay s; fl_t2 := fl_t2 s; chfl := chfl s; time2 := time2 s; conn := conn s; reg := reg s; queue := queue s; regreq := regreq s; obuf := obuf s; sb_n := sb_n s; sres := sres s; inq := inq s; outs := outs s |}.
 Definition set_tsv (v : tmr) (s : st) : st :=
-  {| now := now s; cnt0 := cnt0 s; tb := tb s; upc := upc s; upl := upl s; gout := gout s; slots := slots s; delay := delay s; tcd := tcd s; tsv := v; tup := tup s; seqc := seqc s; li := li s; ram_relay := ram_relay s; ram_t2 := ram_t2 s; fl_relay := fl_relay s; fl_t2 := fl_t2 s; chfl := chfl s; time2 := time2 s; conn := conn s; reg := reg s; queue := queue s; regreq := regreq s; obuf := obuf s; sb_n := sb_n s; sres := sres s; outs := outs s |}.
+  {| now := now s; cnt0 := cnt0 s; tb := tb s; upc := upc s; upl := upl s; gout := gout s; slots := slots s; delay := delay s; tcd := tcd s; tsv := v; tup := tup s; seqc := seqc s; li := li s; ram_relay := ram_relay s; ram_t2 := ram_t2 s; fl_relay := fl_relay s; fl_t2 := fl_t2 s; chfl := chfl s; time2 := time2 s; conn := conn s; reg := reg s; queue := queue s; regreq := regreq s; obuf := obuf s; sb_n := sb_n s; sres := sres s; inq := inq s; outs := outs s |}.
 Definition set_tup (v : tmr) (s : st) : st :=
-  {| now := now s; cnt0 := cnt0 s; tb := tb s; upc := upc s; upl := upl s; gout := gout s; slots := slots s; delay := delay s; tcd := tcd s; tsv := tsv s; tup := v; seqc := seqc s; li := li s; ram_relay := ram_relay s; ram_t2 := ram_t2 s; fl_relay := fl_relay s; fl_t2 := fl_t2 s; chfl := chfl s; time2 := time2 s; conn := conn s; reg := reg s; queue := queue s; regreq := regreq s; obuf := obuf s; sb_n := sb_n s; sres := sres s; outs := outs s |}.
+  {| now := now s; cnt0 := cnt0 s; tb := tb s; upc := upc s; upl := upl s; gout := gout s; slots := slots s; delay := delay s; tcd := tcd s; tsv := tsv s; tup := v; seqc := seqc s; li := li s; ram_relay := ram_relay s; ram_t2 := ram_t2 s; fl_relay := fl_relay s; fl_t2 := fl_t2 s; chfl := chfl s; time2 := time2 s; conn := conn s; reg := reg s; queue := queue s; regreq := regreq s; obuf := obuf s; sb_n := sb_n s; sres := sres s; inq := inq s; outs := outs s |}.
 Definition set_seqc (v : Z) (s : st) : st :=
-  {| now := now s; cnt0 := cnt0 s; tb := tb s; upc := upc s; upl := upl s; gout := gout s; slots := slots s; delay := delay s; tcd := tcd s; tsv := tsv s; tup := tup s; seqc := v; li := li s; ram_relay := ram_relay s; ram_t2 := ram_t2 s; fl_relay := fl_relay s; fl_t2 := fl_t2 s; chfl := chfl s; time2 := time2 s; conn := conn s; reg := reg s; queue := queue s; regreq := regreq s; obuf := obuf s; sb_n := sb_n s; sres := sres s; outs := outs s |}.
+  {| now := now s; cnt0 := cnt0 s; tb := tb s; upc := upc s; upl := upl s; gout := gout s; slots := slots s; delay := delay s; tcd := tcd s; tsv := tsv s; tup := tup s; seqc := v; li := li s; ram_relay := ram_relay s; ram_t2 := ram_t2 s; fl_relay := fl_relay s; fl_t2 := fl_t2 s; chfl := chfl s; time2 := time2 s; conn := conn s; reg := reg s; queue := queue s; regreq := regreq s; obuf := obuf s; sb_n := sb_n s; sres := sres s; inq := inq s; outs := outs s |}.
 Definition set_li (v : Z) (s : st) : st :=
-  {| now := now s; cnt0 := cnt0 s; tb := tb s; upc := upc s; upl := upl s; gout := gout s; slots := slots s; delay := delay s; tcd := tcd s; tsv := tsv s; tup := tup s; seqc := seqc s; li := v; ram_relay := ram_relay s; ram_t2 := ram_t2 s; fl_relay := fl_relay s; fl_t2 := fl_t2 s; chfl := chfl s; time2 := time2 s; conn := conn s; reg := reg s; queue := queue s; regreq := regreq s; obuf := obuf s; sb_n := sb_n s; sres := sres s; outs := outs s |}.
+  {| now := now s; cnt0 := cnt0 s; tb := tb s; upc := upc s; upl := upl s; gout := gout s; slots := slots s; delay := delay s; tcd := tcd s; tsv := tsv s; tup := tup s; seqc := seqc s; li := v; ram_relay := ram_relay s; ram_t2 := ram_t2 s; fl_relay := fl_relay s; fl_t2 := fl_t2 s; chfl := chfl s; time2 := time2 s; conn := conn s; reg := reg s; queue := queue s; regreq := regreq s; obuf := obuf s; sb_n := sb_n s; sres := sres s; inq := inq s; outs := outs s |}.
 Definition set_ram_relay (v : list Z) (s : st) : st :=
-  {| now := now s; cnt0 := cnt0 s; tb := tb s; upc := upc s; upl := upl s; gout := gout s; slots := slots s; delay := delay s; tcd := tcd s; tsv := tsv s; tup := tup s; seqc := seqc s; li := li s; ram_relay := v; ram_t2 := ram_t2 s; fl_relay := fl_relay s; fl_t2 := fl_t2 s; chfl := chfl s; time2 := time2 s; conn := conn s; reg := reg s; queue := queue s; regreq := regreq s; obuf := obuf s; sb_n := sb_n s; sres := sres s; outs := outs s |}.
+  {| now := now s; cnt0 := cnt0 s; tb := tb s; upc := upc s; upl := upl s; gout := gout s; slots := slots s; delay := delay s; tcd := tcd s; tsv := tsv s; tup := tup s; seqc := seqc s; li := li s; ram_relay := v; ram_t2 := ram_t2 s; fl_relay := fl_relay s; fl_t2 := fl_t2 s; chfl := chfl s; time2 := time2 s; conn := conn s; reg := reg s; queue := queue s; regreq := regreq s; obuf := obuf s; sb_n := sb_n s; sres := sres s; inq := inq s; outs := outs s |}.
 Definition set_ram_t2 (v : list Z) (s : st) : st :=
-  {| now := now s; cnt0 := cnt0 s; tb := tb s; upc := upc s; upl := upl s; gout := gout s; slots := slots s; delay := delay s; tcd := tcd s; tsv := tsv s; tup := tup s; seqc := seqc s; li := li s; ram_relay := ram_relay s; ram_t2 := v; fl_relay := fl_relay s; fl_t2 := fl_t2 s; chfl := chfl s; time2 := time2 s; conn := conn s; reg := reg s; queue := queue s; regreq := regreq s; obuf := obuf s; sb_n := sb_n s; sres := sres s; outs := outs s |}.
+  {| now := now s; cnt0 := cnt0 s; tb := tb s; upc := upc s; upl := upl s; gout := gout s; slots := slots s; delay := delay s; tcd := tcd s; tsv := tsv s; tup := tup s; seqc := seqc s; li := li s; ram_relay := ram_relay s; ram_t2 := v; fl_relay := fl_relay s; fl_t2 := fl_t2 s; chfl := chfl s; time2 := time2 s; conn := conn s; reg := reg s; queue := queue s; regreq := regreq s; obuf := obuf s; sb_n := sb_n s; sres := sres s; inq := inq s; outs := outs s |}.
 Definition set_fl_relay (v : list Z) (s : st) : st :=
-  {| now := now s; cnt0 := cnt0 s; tb := tb s; upc := upc s; upl := upl s; gout := gout s; slots := slots s; delay := delay s; tcd := tcd s; tsv := tsv s; tup := tup s; seqc := seqc s; li := li s; ram_relay := ram_relay s; ram_t2 := ram_t2 s; fl_relay := v; fl_t2 := fl_t2 s; chfl := chfl s; time2 := time2 s; conn := conn s; reg := reg s; queue := queue s; regreq := regreq s; obuf := obuf s; sb_n := sb_n s; sres := sres s; outs := outs s |}.
+  {| now := now s; cnt0 := cnt0 s; tb := tb s; upc := upc s; upl := upl s; gout := gout s; slots := slots s; delay := delay s; tcd := tcd s; tsv := tsv s; tup := tup s; seqc := seqc s; li := li s; ram_relay := ram_relay s; ram_t2 := ram_t2 s; fl_relay := v; fl_t2 := fl_t2 s; chfl := chfl s; time2 := time2 s; conn := conn s; reg := reg s; queue := queue s; regreq := regreq s; obuf := obuf s; sb_n := sb_n s; sres := sres s; inq := inq s; outs := outs s |}.
 Definition set_fl_t2 (v : list Z) (s : st) : st :=
-  {| now := now s; cnt0 := cnt0 s; tb := tb s; upc := upc s; upl := upl s; gout := gout s; slots := slots s; delay := delay s; tcd := tcd s; tsv := tsv s; tup := tup s; seqc := seqc s; li := li s; ram_relay := ram_relay s; ram_t2 := ram_t2 s; fl_relay := fl_relay s; fl_t2 := v; chfl := chfl s; time2 := time2 s; conn := conn s; reg := reg s; queue := queue s; regreq := regreq s; obuf := obuf s; sb_n := sb_n s; sres := sres s; outs := outs s |}.
+  {| now := now s; cnt0 := cnt0 s; tb := tb s; upc := upc s; upl := upl s; gout := gout s; slots := slots s; delay := delay s; tcd := tcd s; tsv := tsv s; tup := tup s; seqc := seqc s; li := li s; ram_relay := ram_relay s; ram_t2 := ram_t2 s; fl_relay := fl_relay s; fl_t2 := v; chfl := chfl s; time2 := time2 s; conn := conn s; reg := reg s; queue := queue s; regreq := regreq s; obuf := obuf s; sb_n := sb_n s; sres := sres s; inq := inq s; outs := outs s |}.
 Definition set_chfl (v : list Z) (s : st) : st :=
-  {| now := now s; cnt0 := cnt0 s; tb := tb s; upc := upc s; upl := upl s; gout := gout s; slots := slots s; delay := delay s; tcd := tcd s; tsv := tsv s; tup := tup s; seqc := seqc s; li := li s; ram_relay := ram_relay s; ram_t2 := ram_t2 s; fl_relay := fl_relay s; fl_t2 := fl_t2 s; chfl := v; time2 := time2 s; conn := conn s; reg := reg s; queue := queue s; regreq := regreq s; obuf := obuf s; sb_n := sb_n s; sres := sres s; outs := outs s |}.
+  {| now := now s; cnt0 := cnt0 s; tb := tb s; upc := upc s; upl := upl s; gout := gout s; slots := slots s; delay := delay s; tcd := tcd s; tsv := tsv s; tup := tup s; seqc := seqc s; li := li s; ram_relay := ram_relay s; ram_t2 := ram_t2 s; fl_relay := fl_relay s; fl_t2 := fl_t2 s; chfl := v; time2 := time2 s; conn := conn s; reg := reg s; queue := queue s; regreq := regreq s; obuf := obuf s; sb_n := sb_n s; sres := sres s; inq := inq s; outs := outs s |}.
 Definition set_time2 (v : list Z) (s : st) : st :=
-  {| now := now s; cnt0 := cnt0 s; tb := tb s; upc := upc s; upl := upl s; gout := gout s; slots := slots s; delay := delay s; tcd := tcd s; tsv := tsv s; tup := tup s; seqc := seqc s; li := li s; ram_relay := ram_relay s; ram_t2 := ram_t2 s; fl_relay := fl_relay s; fl_t2 := fl_t2 s; chfl := chfl s; time2 := v; conn := conn s; reg := reg s; queue := queue s; regreq := regreq s; obuf := obuf s; sb_n := sb_n s; sres := sres s; outs := outs s |}.
+  {| now := now s; cnt0 := cnt0 s; tb := tb s; upc := upc s; upl := upl s; gout := gout s; slots := slots s; delay := delay s; tcd := tcd s; tsv := tsv s; tup := tup s; seqc := seqc s; li := li s; ram_relay := ram_relay s; ram_t2 := ram_t2 s; fl_relay := fl_relay s; fl_t2 := fl_t2 s; chfl := chfl s; time2 := v; conn := conn s; reg := reg s; queue := queue s; regreq := regreq s; obuf := obuf s; sb_n := sb_n s; sres := sres s; inq := inq s; outs := outs s |}.
 Definition set_conn (v : bool) (s : st) : st :=
-  {| now := now s; cnt0 := cnt0 s; tb := tb s; upc := upc s; upl := upl s; gout := gout s; slots := slots s; delay := delay s; tcd := tcd s; tsv := tsv s; tup := tup s; seqc := seqc s; li := li s; ram_relay := ram_relay s; ram_t2 := ram_t2 s; fl_relay := fl_relay s; fl_t2 := fl_t2 s; chfl := chfl s; time2 := time2 s; conn := v; reg := reg s; queue := queue s; regreq := regreq s; obuf := obuf s; sb_n := sb_n s; sres := sres s; outs := outs s |}.
+  {| now := now s; cnt0 := cnt0 s; tb := tb s; upc := upc s; upl := upl s; gout := gout s; slots := slots s; delay := delay s; tcd := tcd s; tsv := tsv s; tup := tup s; seqc := seqc s; li := li s; ram_relay := ram_relay s; ram_t2 := ram_t2 s; fl_relay := fl_relay s; fl_t2 := fl_t2 s; chfl := chfl s; time2 := time2 s; conn := v; reg := reg s; queue := queue s; regreq := regreq s; obuf := obuf s; sb_n := sb_n s; sres := sres s; inq := inq s; outs := outs s |}.
 Definition set_reg (v : bool) (s : st) : st :=
-  {| now := now s; cnt0 := cnt0 s; tb := tb s; upc := upc s; upl := upl s; gout := gout s; slots := slots s; delay := delay s; tcd := tcd s; tsv := tsv s; tup := tup s; seqc := seqc s; li := li s; ram_relay := ram_relay s; ram_t2 := ram_t2 s; fl_relay := fl_relay s; fl_t2 := fl_t2 s; chfl := chfl s; time2 := time2 s; conn := conn s; reg := v; queue := queue s; regreq := regreq s; obuf := obuf s; sb_n := sb_n s; sres := sres s; outs := outs s |}.
+  {| now := now s; cnt0 := cnt0 s; tb := tb s; upc := upc s; upl := upl s; gout := gout s; slots := slots s; delay := delay s; tcd := tcd s; tsv := tsv s; tup := tup s; seqc := seqc s; li := li s; ram_relay := ram_relay s; ram_t2 := ram_t2 s; fl_relay := fl_relay s; fl_t2 := fl_t2 s; chfl := chfl s; time2 := time2 s; conn := conn s; reg := v; queue := queue s; regreq := regreq s; obuf := obuf s; sb_n := sb_n s; sres := sres s; inq := inq s; outs := outs s |}.
 Definition set_queue (v : list call) (s : st) : st :=
-  {| now := now s; cnt0 := cnt0 s; tb := tb s; upc := upc s; upl := upl s; gout := gout s; slots := slots s; delay := delay s; tcd := tcd s; tsv := tsv s; tup := tup s; seqc := seqc s; li := li s; ram_relay := ram_relay s; ram_t2 := ram_t2 s; fl_relay := fl_relay s; fl_t2 := fl_t2 s; chfl := chfl s; time2 := time2 s; conn := conn s; reg := reg s; queue := v; regreq := regreq s; obuf := obuf s; sb_n := sb_n s; sres := sres s; outs := outs s |}.
+  {| now := now s; cnt0 := cnt0 s; tb := tb s; upc := upc s; upl := upl s; gout := gout s; slots := slots s; delay := delay s; tcd := tcd s; tsv := tsv s; tup := tup s; seqc := seqc s; li := li s; ram_relay := ram_relay s; ram_t2 := ram_t2 s; fl_relay := fl_relay s; fl_t2 := fl_t2 s; chfl := chfl s; time2 := time2 s; conn := conn s; reg := reg s; queue := v; regreq := regreq s; obuf := obuf s; sb_n := sb_n s; sres := sres s; inq := inq s; outs := outs s |}.
 Definition set_regreq (v : bool) (s : st) : st :=
-  {| now := now s; cnt0 := cnt0 s; tb := tb s; upc := upc s; upl := upl s; gout := gout s; slots := slots s; delay := delay s; tcd := tcd s; tsv := tsv s; tup := tup s; seqc := seqc s; li := li s; ram_relay := ram_relay s; ram_t2 := ram_t2 s; fl_relay := fl_relay s; fl_t2 := fl_t2 s; chfl := chfl s; time2 := time2 s; conn := conn s; reg := reg s; queue := queue s; regreq := v; obuf := obuf s; sb_n := sb_n s; sres := sres s; outs := outs s |}.
+  {| now := now s; cnt0 := cnt0 s; tb := tb s; upc := upc s; upl := upl s; gout := gout s; slots := slots s; delay := delay s; tcd := tcd s; tsv := tsv s; tup := tup s; seqc := seqc s; li := li s; ram_relay := ram_relay s; ram_t2 := ram_t2 s; fl_relay := fl_relay s; fl_t2 := fl_t2 s; chfl := chfl s; time2 := time2 s; conn := conn s; reg := reg s; queue := queue s; regreq := v; obuf := obuf s; sb_n := sb_n s; sres := sres s; inq := inq s; outs := outs s |}.
 Definition set_obuf (v : list (call * Z)) (s : st) : st :=
-  {| now := now s; cnt0 := cnt0 s; tb := tb s; upc := upc s; upl := upl s; gout := gout s; slots := slots s; delay := delay s; tcd := tcd s; tsv := tsv s; tup := tup s; seqc := seqc s; li := li s; ram_relay := ram_relay s; ram_t2 := ram_t2 s; fl_relay := fl_relay s; fl_t2 := fl_t2 s; chfl := chfl s; time2 := time2 s; conn := conn s; reg := reg s; queue := queue s; regreq := regreq s; obuf := v; sb_n := sb_n s; sres := sres s; outs := outs s |}.
+  {| now := now s; cnt0 := cnt0 s; tb := tb s; upc := upc s; upl := upl s; gout := gout s; slots := slots s; delay := delay s; tcd := tcd s; tsv := tsv s; tup := tup s; seqc := seqc s; li := li s; ram_relay := ram_relay s; ram_t2 := ram_t2 s; fl_relay := fl_relay s; fl_t2 := fl_t2 s; chfl := chfl s; time2 := time2 s; conn := conn s; reg := reg s; queue := queue s; regreq := regreq s; obuf := v; sb_n := sb_n s; sres := sres s; inq := inq s; outs := outs s |}.
 Definition set_sb_n (v : Z) (s : st) : st :=
-  {| now := now s; cnt0 := cnt0 s; tb := tb s; upc := upc s; upl := upl s; gout := gout s; slots := slots s; delay := delay s; tcd := tcd s; tsv := tsv s; tup := tup s; seqc := seqc s; li := li s; ram_relay := ram_relay s; ram_t2 := ram_t2 s; fl_relay := fl_relay s; fl_t2 := fl_t2 s; chfl := chfl s; time2 := time2 s; conn := conn s; reg := reg s; queue := queue s; regreq := regreq s; obuf := obuf s; sb_n := v; sres := sres s; outs := outs s |}.
+  {| now := now s; cnt0 := cnt0 s; tb := tb s; upc := upc s; upl := upl s; gout := gout s; slots := slots s; delay := delay s; tcd := tcd s; tsv := tsv s; tup := tup s; seqc := seqc s; li := li s; ram_relay := ram_relay s; ram_t2 := ram_t2 s; fl_relay := fl_relay s; fl_t2 := fl_t2 s; chfl := chfl s; time2 := time2 s; conn := conn s; reg := reg s; queue := queue s; regreq := regreq s; obuf := obuf s; sb_n := v; sres := sres s; inq := inq s; outs := outs s |}.
 Definition set_sres (v : list Z) (s : st) : st :=
-  {| now := now s; cnt0 := cnt0 s; tb := tb s; upc := upc s; upl := upl s; gout := gout s; slots := slots s; delay := delay s; tcd := tcd s; tsv := tsv s; tup := tup s; seqc := seqc s; li := li s; ram_relay := ram_relay s; ram_t2 := ram_t2 s; fl_relay := fl_relay s; fl_t2 := fl_t2 s; chfl := chfl s; time2 := time2 s; conn := conn s; reg := reg s; queue := queue s; regreq := regreq s; obuf := obuf s; sb_n := sb_n s; sres := v; outs := outs s |}.
+  {| now := now s; cnt0 := cnt0 s; tb := tb s; upc := upc s; upl := upl s; gout := gout s; slots := slots s; delay := delay s; tcd := tcd s; tsv := tsv s; tup := tup s; seqc := seqc s; li := li s; ram_relay := ram_relay s; ram_t2 := ram_t2 s; fl_relay := fl_relay s; fl_t2 := fl_t2 s; chfl := chfl s; time2 := time2 s; conn := conn s; reg := reg s; queue := queue s; regreq := regreq s; obuf := obuf s; sb_n := sb_n s; sres := v; inq := inq s; outs := outs s |}.
+Definition set_inq (v : list (Z * Z * Z * Z)) (s : st) : st :=
+  {| now := now s; cnt0 := cnt0 s; tb := tb s; upc := upc s; upl := upl s; gout := gout s; slots := slots s; delay := delay s; tcd := tcd s; tsv := tsv s; tup := tup s; seqc := seqc s; li := li s; ram_relay := ram_relay s; ram_t2 := ram_t2 s; fl_relay := fl_relay s; fl_t2 := fl_t2 s; chfl := chfl s; time2 := time2 s; conn := conn s; reg := reg s; queue := queue s; regreq := regreq s; obuf := obuf s; sb_n := sb_n s; sres := sres s; inq := v; outs := outs s |}.
 Definition set_outs (v : list out) (s : st) : st :=
-  {| now := now s; cnt0 := cnt0 s; tb := tb s; upc := upc s; upl := upl s; gout := gout s; slots := slots s; delay := delay s; tcd := tcd s; tsv := tsv s; tup := tup s; seqc := seqc s; li := li s; ram_relay := ram_relay s; ram_t2 := ram_t2 s; fl_relay := fl_relay s; fl_t2 := fl_t2 s; chfl := chfl s; time2 := time2 s; conn := conn s; reg := reg s; queue := queue s; regreq := regreq s; obuf := obuf s; sb_n := sb_n s; sres := sres s; outs := v |}.
+  {| now := now s; cnt0 := cnt0 s; tb := tb s; upc := upc s; upl := upl s; gout := gout s; slots := slots s; delay := delay s; tcd := tcd s; tsv := tsv s; tup := tup s; seqc := seqc s; li := li s; ram_relay := ram_relay s; ram_t2 := ram_t2 s; fl_relay := fl_relay s; fl_t2 := fl_t2 s; chfl := chfl s; time2 := time2 s; conn := conn s; reg := reg s; queue := queue s; regreq := regreq s; obuf := obuf s; sb_n := sb_n s; sres := sres s; inq := inq s; outs := v |}.
 
 Definition emit (o : out) (s : st) : st := set_outs (o :: outs s) s.
 Definition delay_us (n : Z) (s : st) : st := set_now (now s + n) s.
@@ -441,7 +444,7 @@ Definition init (c : cfg) : st :=
   {| now := 0; cnt0 := c_boot c; tb := 0; upc := c_boot c / 4294967296; upl := 0; gout := 0; slots := repeat slot_free 8; delay := 0;
      tcd := tmr0; tsv := tmr0; tup := tmr0; seqc := 0; li := 0;
      ram_relay := zeros8; ram_t2 := zeros8; fl_relay := zeros8; fl_t2 := zeros8;
-     chfl := []; time2 := pad8 (c_time2 c); conn := false; reg := false; queue := []; regreq := false; obuf := []; sb_n := 0; sres := []; outs := [] |}.
+     chfl := []; time2 := pad8 (c_time2 c); conn := false; reg := false; queue := []; regreq := false; obuf := []; sb_n := 0; sres := []; inq := []; outs := [] |}.
 
 (* ---------- events of the C07 driver ---------- *)
 Inductive ev :=
